@@ -298,6 +298,9 @@ def run(ctx):
   r, done, b2 = tlc.validate_batch('Rules', cfg, ctx.scratch, [bad], workers=1)
   fl = set(v[2] for v in tlc.extract_prints(r.out, 'F'))
   ctx.negative_control('one destination removed from a recorded routing decision', 'route' in fl)
+  # the periodic re-read of the file (Reload.tla): histories of rewrites, removals, restores with preserved times, failing ticks
+  from . import reloadsys
+  reloadsys.check(ctx, 'aggrules')
 
 
 def replay(ctx, rp):
